@@ -10,9 +10,11 @@ os.makedirs(dst, exist_ok=True)
 for f in ("patch.diff", "demo.diff", "notes.md"):
     if os.path.exists(os.path.join(src, f)):
         shutil.copy(os.path.join(src, f), dst)
-res = json.load(open(os.path.join(src, "result.json"))) if os.path.exists(os.path.join(src, "result.json")) else {}
-conf = res.get("confirm", {})
-det = res.get("detect", {})
+def _load(n):
+    p = os.path.join(src, n)
+    return json.load(open(p)) if os.path.exists(p) else {}
+conf = _load("confirm.json")
+det = _load("detect.json")
 meta = {
     "name": name,
     "breaks_property": prop,
